@@ -600,15 +600,17 @@ var mul32 = []*instructionType{
 		effects: func(i instruction) []expr.Effect {
 			r1, r2 := regLoad(rs1, i, width32), regLoad(rs2, i, width32)
 			r1Abs := exprtools.Abs(r1, width32)
-			mul := expr.NewBinary(expr.Mul, r1Abs, r2, width64)
+			mulAbs := expr.NewBinary(expr.Mul, r1Abs, r2, width64)
+			// The whole double width product has to be negated.
+			mul := exprtools.BoolCond(
+				exprtools.IntNegative(r1, width32),
+				exprtools.Negate(mulAbs, width64),
+				mulAbs,
+				width64,
+			)
 			shift := expr.ConstFromUint[uint8](32)
 			shifted := expr.NewBinary(expr.Rsh, mul, shift, width64)
-			val := exprtools.BoolCond(
-				exprtools.IntNegative(r1, width32),
-				shifted,
-				exprtools.Negate(shifted, width32),
-				width32,
-			)
+			val := exprtools.NewWidthGadget(shifted, width32)
 			return []expr.Effect{regStore(val, i, width32)}
 		},
 	}, {
